@@ -48,6 +48,11 @@ fn probes(_m: &Model) -> Vec<Vec<Bytes>> {
         p.push(sv(&["XPENDING", "s", g, "2-1", "+", "10"]));
         p.push(sv(&["XPENDING", "s", g, "-", "+", "10", "c1"]));
         p.push(sv(&["XPENDING", "s", g, "-", "+", "10", "c2"]));
+        // windows that end before they start or lie between / outside the pending ids, count 0
+        p.push(sv(&["XPENDING", "s", g, "+", "-", "10"]));
+        p.push(sv(&["XPENDING", "s", g, "3-1", "1-1", "10", "c1"]));
+        p.push(sv(&["XPENDING", "s", g, "1-1", "2-1", "10"]));
+        p.push(sv(&["XPENDING", "s", g, "-", "+", "0"]));
         p.push(sv(&["XINFO", "CONSUMERS", "s", g]));
     }
     p.push(sv(&["XINFO", "GROUPS", "s"]));
